@@ -307,6 +307,12 @@ def limit_cases():
                 for _ in range(k):
                     vv = (b'v', vv)
                 out.append(('a32-s%d-v%d-%s' % (d, k, e), mk([vv], e)))
+        # variants whose OWN signature is long: its one-byte length crosses 127/128 (a struct of n-2 bytes), alone,
+        # behind other arguments and in front of one
+        for n in (126, 127, 128, 129, 200, 255):
+            st = (b'(' + b'y' * (n - 2) + b')', [(b'y', (i * 7 + 1) & 0xff) for i in range(n - 2)])
+            out.append(('variant-sig-len-%d-%s' % (n, e), mk([(b'v', st)], e)))
+            out.append(('variant-sig-len-%d-mid-%s' % (n, e), mk([(b'ay', [(b'y', 0xee)] * 150), (b'v', st), (b'u', 0x12345678)], e)))
         for n in (254, 255):
             out.append(('sig-len-%d-%s' % (n, e), mk([(b'i', 1)] * n, e)))
         out.append(('sig-len-255-g-%s' % e, mk([(b'g', b'i' * 255)], e)))
